@@ -99,10 +99,10 @@ Ltac drel HR :=
   pose proof (R3 _ _ HR) as Hr3; pose proof (R4 _ _ HR) as Hr4; pose proof (R5 _ _ HR) as Hr5;
   pose proof (R6 _ _ HR) as Hr6; pose proof (R7 _ _ HR) as Hr7.
 
-Ltac use_r1 :=
+Ltac use_r1 HR :=
   match goal with
-  | Hr1 : (forall c w i, In (c, w, i) (r_reg ?r) -> _), H : In (?c, ?w, ?i) (r_reg ?r) |- _ =>
-    let x := fresh "x" in destruct (Hr1 _ _ _ H) as (x & ?Hx & ?Hdd & ?Hsn & ?Hor)
+  | H : In (?c, ?w, ?i) (r_reg _) |- _ =>
+    let x := fresh "x" in destruct (R1 _ _ HR _ _ _ H) as (x & ?Hx & ?Hdd & ?Hsn & ?Hor)
   end.
 
 Definition quiet_action (a : action) : bool :=
@@ -119,18 +119,309 @@ Proof.
     try (destruct k; simpl; repeat constructor; simpl; auto).
 Qed.
 
+Lemma seen_fst : forall s w i, In (w, i) (seen s) -> In w (map fst (seen s)).
+Proof. intros. change w with (fst (w, i)). apply in_map; auto. Qed.
+
+Lemma rel_insert : forall s i r s' e, Inv s -> Rel s r -> step s (AInsert i) = Some (s', e) -> Rel s' r.
+Proof.
+  intros s i r s' e HI HR H. drel HR. inv_step H.
+  1-3: (* closed / id exists *) constructor; auto; intros; simp; eqb_cases; inj_all; try congruence; eauto.
+  - (* inserted *)
+    rename c0 into xa. constructor; auto; simp.
+    + intros cc ww ii Hin. destruct (Hr1 _ _ _ Hin) as (x & Hx & Hdd & Hsn & Hor). unfold upd.
+      destruct (Nat.eqb_spec cc c); subst.
+      * rewrite Heqo in Hx; inversion Hx; subst. eexists; split; [reflexivity|]. simpl. repeat split; auto.
+        destruct Hor; auto.
+      * eexists; repeat split; eauto.
+    + intros cc x ww ii Hc Hin Hs Hd Hrl. unfold upd in Hc. destruct (Nat.eqb_spec cc c); subst; [|eauto].
+      inversion Hc; subst; clear Hc. simpl in *. destruct Hin as [E|Hin].
+      * inversion E; subst. apply in_map_iff in Hs. destruct Hs as [[w' j] [E1 E2]]. simpl in E1; subst.
+        pose proof (I3 _ HI _ _ E2). lia.
+      * eauto.
+    + intros cc x ww ii Hc Hrl. unfold upd in Hc. destruct (Nat.eqb_spec cc c); subst; [|eauto].
+      inversion Hc; subst; clear Hc. simpl in *. eauto.
+    + intros ii cc ww x Hp Hc Hd. unfold upd in *. destruct (Nat.eqb_spec ii i); subst.
+      * inversion Hp; subst. rewrite Nat.eqb_refl in Hc. inversion Hc; subst. simpl. auto.
+      * destruct (Nat.eqb_spec cc c); subst.
+        -- inversion Hc; subst. simpl in *. right. eauto.
+        -- eauto.
+    + intros cc x ww Hc Hrl. unfold upd in Hc. destruct (Nat.eqb_spec cc c); subst; [|eauto].
+      inversion Hc; subst; clear Hc. simpl in *. eauto.
+Qed.
+
+(* shrinking the table of c by one id whose registration (if any) is cancelled / unsent *)
+Lemma rel_remove_entry : forall s r c x w x', Inv s -> Rel s r -> cns s c = Some x ->
+  c_subs x' = remove_w w (c_subs x) -> c_dead x' = c_dead x ->
+  (forall w', c_rl x' = RLRemove w' -> c_rl x = RLRemove w') ->
+  (forall w', c_rl x = RLRemove w' -> w' <> w -> c_rl x' = RLRemove w') ->
+  (forall i, In (c, w, i) (r_reg r) -> In i (r_canc r)) ->
+  (forall j, pc s j <> SSend c w) ->
+  Rel (set_cn s c x') r.
+Proof.
+  intros s r c x w x' HI HR Hc Hs Hd Hrl1 Hrl2 Hcan Hns. drel HR. constructor; auto; simp.
+  - intros cc ww ii Hin. destruct (Hr1 _ _ _ Hin) as (y & Hy & Hdd & Hsn & Hor). unfold upd.
+    destruct (Nat.eqb_spec cc c); subst.
+    + rewrite Hc in Hy; inversion Hy; subst. eexists; split; [reflexivity|]. rewrite Hd, Hs. repeat split; auto.
+      destruct Hor as [|Hor]; auto. destruct (Nat.eq_dec ww w); subst; [left; eauto|].
+      right. apply remove_w_In. auto.
+    + eexists; repeat split; eauto.
+  - intros cc y ww ii Hy Hin Hsn Hdd Hr. unfold upd in Hy. destruct (Nat.eqb_spec cc c); subst; [|eauto].
+    inversion Hy; subst; clear Hy. rewrite Hs in Hin. apply remove_w_In in Hin. destruct Hin.
+    eapply Hr4; eauto; try congruence.
+  - intros cc y ww ii Hy Hr. unfold upd in Hy. destruct (Nat.eqb_spec cc c); subst; [|eauto].
+    inversion Hy; subst; clear Hy. eapply Hr5; eauto.
+  - intros j cc ww y Hp Hy Hdd. unfold upd in Hy. destruct (Nat.eqb_spec cc c); subst; [|eauto].
+    inversion Hy; subst; clear Hy. rewrite Hs. apply remove_w_In. split.
+    + eapply Hr6; eauto. congruence.
+    + intro; subst. eapply Hns; eauto.
+  - intros cc y ww Hy Hr. unfold upd in Hy. destruct (Nat.eqb_spec cc c); subst; [|eauto].
+    inversion Hy; subst; clear Hy. eapply Hr7; eauto.
+Qed.
+
+(* a subscriber's program point changes, not to / from SSend *)
+Lemma rel_set_pc : forall s r i p, Rel s r -> (forall c w, p <> SSend c w) -> Rel (set_pc s i p) r.
+Proof.
+  intros s r i p HR Hp. drel HR. constructor; auto; simp.
+  intros j cc ww y Hj. unfold upd in Hj. destruct (Nat.eqb_spec j i); subst; [exfalso; eapply Hp; eauto | eauto].
+Qed.
+
+Lemma rel_remove : forall s i r s' e, Inv s -> Rel s r -> step s (ARemove i) = Some (s', e) -> Rel s' r.
+Proof.
+  intros s i r s' e HI HR H. inv_step H;
+    (destruct (remove_sub_cases _ _ _ _ _ Heqo) as (x & Ex & -> & _);
+     apply rel_set_pc; [|destruct k; simpl; discriminate || (intros; discriminate)];
+     eapply rel_remove_entry; eauto;
+     [apply removed_subs
+     |unfold removed_conn; simpl; destruct (is_nil _); [destruct (idle s)|]; reflexivity
+     |unfold removed_conn; simpl; destruct (is_nil _); [destruct (idle s)|]; simpl; auto
+     |unfold removed_conn; simpl; destruct (is_nil _); [destruct (idle s)|]; simpl; auto
+     | |]).
+  all: try (intros j Hj; assert (j = i) by (eapply (I10 _ HI); [rewrite Hj|rewrite Heqs0]; reflexivity); subst; congruence).
+  all: intros i0 Hin; destruct (R1 _ _ HR _ _ _ Hin) as (y & Hy & Hdd & Hsn & Hor);
+    destruct k as [|er];
+    [ assert (In (w, i) (seen s)) by (apply (I6 _ HI); rewrite Heqs0; reflexivity);
+      assert (i0 = i) by (eapply (I4 _ HI); eauto); subst;
+      apply (R2 _ _ HR); apply (I7 _ HI); rewrite Heqs0; exact I
+    | exfalso; eapply (I5b _ HI i w); [rewrite Heqs0; reflexivity | eapply seen_fst; eauto] ].
+Qed.
+
+Lemma rel_ext : forall s s' r, Rel s r -> (forall c, cns s' c = cns s c) -> (forall i, pc s' i = pc s i) ->
+  (forall i, ctxc s' i = ctxc s i) -> seen s' = seen s -> Rel s' r.
+Proof.
+  intros s s' r HR Ec Ep Ex Es. drel HR. constructor; auto; intros; rewrite ?Ec, ?Ep, ?Ex, ?Es in *; eauto.
+Qed.
+
+Lemma rel_rlremove : forall s c r s' e, Inv s -> Rel s r -> step s (ARLRemove c) = Some (s', e) -> Rel s' r.
+Proof.
+  intros s c r s' e HI HR H. simpl in H.
+  destruct (cns s c) as [x0|] eqn:Heqo; [|discriminate].
+  destruct (c_rl x0) eqn:Heqr; try discriminate.
+  destruct (remove_sub s c w) as [[s1 b]|] eqn:Heqo0; [|discriminate].
+  destruct (remove_sub_cases _ _ _ _ _ Heqo0) as (x & Ex & -> & _).
+  rewrite Heqo in Ex; inversion Ex; subst x; clear Ex.
+  simpl in H. rewrite upd_same in H. inversion H; subst; clear H.
+  eapply (rel_ext (set_cn s c (c_set_rl (removed_conn s x0 w) (if b then RLClose else RLRun)))).
+  - eapply rel_remove_entry; eauto.
+    + simpl. apply removed_subs.
+    + simpl. unfold removed_conn; simpl; destruct (is_nil _); [destruct (idle s)|]; reflexivity.
+    + simpl. destruct b; discriminate.
+    + intros w' E Hne. congruence.
+    + intros i Hin. exfalso. eapply (R5 _ _ HR); eauto.
+    + intros j Hj. pose proof (R7 _ _ HR _ _ _ Heqo Heqr) as Hs.
+      eapply (I5b _ HI j w); [rewrite Hj; reflexivity | exact Hs].
+  - intros cc. simpl. unfold upd. destruct (Nat.eqb_spec cc c); reflexivity.
+  - reflexivity.
+  - reflexivity.
+  - reflexivity.
+Qed.
+
+Lemma rel_upack : forall s d r s' e, InvD s -> NoConnYet s -> Rel s r -> step s (UpAck d) = Some (s', e) -> Rel s' r.
+Proof.
+  intros s d r s' e HD HN HR H. inv_step H.
+  assert (Hn : cns s d = None) by (eapply HN; eauto; congruence).
+  apply rel_set_pc; [|intros; discriminate].
+  drel HR. constructor; auto; simp.
+  - intros cc ww ii Hin. destruct (Hr1 _ _ _ Hin) as (y & Hy & Hdd & Hsn & Hor). unfold upd.
+    destruct (Nat.eqb_spec cc d); subst; [congruence|]. eexists; repeat split; eauto.
+  - intros cc y ww ii Hy. unfold upd in Hy. destruct (Nat.eqb_spec cc d); subst; [|eauto].
+    inversion Hy; subst. simpl. tauto.
+  - intros cc y ww ii Hy. unfold upd in Hy. destruct (Nat.eqb_spec cc d); subst; [|eauto].
+    inversion Hy; subst. simpl. discriminate.
+  - intros j cc ww y Hp Hy. unfold upd in Hy. destruct (Nat.eqb_spec cc d); subst; [|eauto].
+    exfalso. assert (Hc : connP (pc s j) d) by (rewrite Hp; reflexivity).
+    pose proof (D5 _ HD _ _ Hc) as Hk. unfold ck in Hk. rewrite Hn in Hk. discriminate.
+  - intros cc y ww Hy. unfold upd in Hy. destruct (Nat.eqb_spec cc d); subst; [|eauto].
+    inversion Hy; subst. simpl. discriminate.
+Qed.
+
+Lemma rel_set_cn_same : forall s r c x x', Rel s r -> cns s c = Some x ->
+  c_subs x' = c_subs x -> c_dead x' = c_dead x -> c_rl x' = c_rl x -> Rel (set_cn s c x') r.
+Proof.
+  intros s r c x x' HR Hc Es Ed Er. drel HR. constructor; auto; simp.
+  - intros cc ww ii Hin. destruct (Hr1 _ _ _ Hin) as (y & Hy & Hdd & Hsn & Hor). unfold upd.
+    destruct (Nat.eqb_spec cc c); subst.
+    + rewrite Hc in Hy; inversion Hy; subst. eexists; split; [reflexivity|]. rewrite Ed, Es. auto.
+    + eexists; repeat split; eauto.
+  - intros cc y ww ii Hy. unfold upd in Hy. destruct (Nat.eqb_spec cc c); subst; [|eauto].
+    inversion Hy; subst. rewrite Es, Ed, Er. eauto.
+  - intros cc y ww ii Hy. unfold upd in Hy. destruct (Nat.eqb_spec cc c); subst; [|eauto].
+    inversion Hy; subst. rewrite Er. eauto.
+  - intros j cc ww y Hp Hy. unfold upd in Hy. destruct (Nat.eqb_spec cc c); subst; [|eauto].
+    inversion Hy; subst. rewrite Es, Ed. eauto.
+  - intros cc y ww Hy. unfold upd in Hy. destruct (Nat.eqb_spec cc c); subst; [|eauto].
+    inversion Hy; subst. rewrite Er. eauto.
+Qed.
+
 Lemma rel_quiet_step : forall s a s' e r, Inv s -> InvD s -> NoConnYet s -> Rel s r -> quiet_action a = true ->
   step s a = Some (s', e) -> Rel s' r.
 Proof.
-  intros s a s' e r HI HD HN HR Hq H. drel HR.
-  destruct a; try discriminate; clear Hq; inv_step H; expl.
-  all: try fwd_actor HI.
-  all: constructor; auto; intros; simp.
-  all: try use_r1.
-  all: eqb_cases; inj_all; fwd_same;
-       repeat (match goal with Er : removed_conn _ _ _ = _ |- _ => rewrite Er in *; clear Er end); simpl in *.
-  all: try solve [eauto | congruence | eexists; repeat split; eauto].
-  all: idtac "LEFT".
-  Show.
-  all: admit.
-Admitted.
+  intros s a s' e r HI HD HN HR Hq H.
+  destruct a; try discriminate; clear Hq;
+    try (eapply rel_insert; eauto; fail); try (eapply rel_remove; eauto; fail);
+    try (eapply rel_rlremove; eauto; fail); try (eapply rel_upack; eauto; fail).
+  all: inv_step H.
+  all: try (apply rel_set_pc; [|intros; discriminate]).
+  all: try (eapply rel_ext; eauto; reflexivity).
+  all: try (eapply rel_set_cn_same; eauto; reflexivity).
+  - (* ASub, becoming the dialler *)
+    eapply (rel_ext (set_pc s i (SDial (next_c s)))); try reflexivity.
+    apply rel_set_pc; auto. intros; discriminate.
+  - (* ARemoveConn *)
+    eapply (rel_ext (set_cn s c (c_set_rm c0 false))); try reflexivity.
+    eapply rel_set_cn_same; eauto.
+Qed.
+
+Definition closed_reg (r : rs) (c : nat) : rs := set_reg (clr r) (drop_c c (r_reg r)).
+
+Lemma scan_closed : forall l r c, soft r -> Forall quiet l ->
+  scan r (l ++ [OSrvClosed c]) = Some (closed_reg r c).
+Proof.
+  intros l r c Hs Hq. rewrite scan_app. destruct (scan_quiet l r Hs Hq) as [r1 [E1 E2]]. rewrite E1.
+  simpl. rewrite scan1_soft; [|destruct E2; subst; auto; unfold soft; simpl; auto|exact I].
+  destruct E2; subst; reflexivity.
+Qed.
+
+(* connection c's socket dies: its registrations are dropped *)
+Lemma rel_kill : forall s r c x x', Rel s r -> cns s c = Some x -> c_dead x' <> None -> c_rl x' = c_rl x ->
+  Rel (set_cn s c x') (closed_reg r c).
+Proof.
+  intros s r c x x' HR Hc Hd Er. drel HR. constructor; simp; auto.
+  - unfold soft; simpl; auto.
+  - intros cc ww ii Hin. apply drop_c_In in Hin. destruct Hin as [Hin Hne].
+    destruct (Hr1 _ _ _ Hin) as (y & Hy & Hdd & Hsn & Hor). unfold upd.
+    destruct (Nat.eqb_spec cc c); [congruence|]. eexists; repeat split; eauto.
+  - intros cc y ww ii Hy Hin Hsn Hdd Hr. unfold upd in Hy. destruct (Nat.eqb_spec cc c); subst.
+    + inversion Hy; subst. congruence.
+    + apply drop_c_In. split; eauto.
+  - intros cc y ww ii Hy Hr Hin. apply drop_c_In in Hin. destruct Hin as [Hin Hne].
+    unfold upd in Hy. destruct (Nat.eqb_spec cc c); subst; [congruence|]. eapply Hr5; eauto.
+  - intros j cc ww y Hp Hy Hdd. unfold upd in Hy. destruct (Nat.eqb_spec cc c); subst; [|eauto].
+    inversion Hy; subst. congruence.
+  - intros cc y ww Hy Hr. unfold upd in Hy. destruct (Nat.eqb_spec cc c); subst; [|eauto].
+    inversion Hy; subst. rewrite Er in Hr. eauto.
+Qed.
+
+(* connection c was dead already: nothing is registered on it, its table may shrink freely *)
+Lemma rel_dead_change : forall s r c x x', Rel s r -> cns s c = Some x -> c_dead x <> None -> c_dead x' <> None ->
+  c_rl x' = c_rl x -> Rel (set_cn s c x') r.
+Proof.
+  intros s r c x x' HR Hc Hd Hd' Er. drel HR. constructor; simp; auto.
+  - intros cc ww ii Hin. destruct (Hr1 _ _ _ Hin) as (y & Hy & Hdd & Hsn & Hor). unfold upd.
+    destruct (Nat.eqb_spec cc c); subst; [congruence|]. eexists; repeat split; eauto.
+  - intros cc y ww ii Hy Hin Hsn Hdd Hr. unfold upd in Hy. destruct (Nat.eqb_spec cc c); subst; [|eauto].
+    inversion Hy; subst. congruence.
+  - intros cc y ww ii Hy Hr. unfold upd in Hy. destruct (Nat.eqb_spec cc c); subst; [|eauto].
+    inversion Hy; subst. rewrite Er in Hr. eauto.
+  - intros j cc ww y Hp Hy Hdd. unfold upd in Hy. destruct (Nat.eqb_spec cc c); subst; [|eauto].
+    inversion Hy; subst. congruence.
+  - intros cc y ww Hy Hr. unfold upd in Hy. destruct (Nat.eqb_spec cc c); subst; [|eauto].
+    inversion Hy; subst. rewrite Er in Hr. eauto.
+Qed.
+
+Lemma rel_drop_unused : forall s r c, Rel s r -> (forall w i, ~ In (c, w, i) (r_reg r)) -> Rel s (closed_reg r c).
+Proof.
+  intros s r c HR Hno. drel HR. constructor; simpl; auto.
+  - unfold soft; simpl; auto.
+  - intros cc ww ii Hin. apply drop_c_In in Hin. destruct Hin. eauto.
+  - intros cc y ww ii Hy Hin Hsn Hdd Hr. apply drop_c_In. split; [eauto|]. intro; subst.
+    eapply Hno. eapply Hr4; eauto.
+  - intros cc y ww ii Hy Hr Hin. apply drop_c_In in Hin. destruct Hin. eapply Hr5; eauto.
+Qed.
+
+Lemma map_connerr_quiet : forall (l : list (nat * nat)) cz, Forall quiet (map (fun p => OConnErr (snd p) cz) l).
+Proof. induction l; simpl; constructor; simpl; auto. Qed.
+
+Lemma rel_shut : forall s r c cz s' evs, Inv s -> Rel s r -> shut s c cz = (s', evs) ->
+  exists r', scan r evs = Some r' /\ Rel s' r'.
+Proof.
+  intros s r c cz s' evs HI HR H.
+  destruct (shut_cases _ _ _ _ _ H) as [(-> & -> & _)|(x & Ex & Ecl & -> & ->)].
+  - exists r. split; auto.
+  - unfold kill_evs. destruct (c_dead x) eqn:Ed.
+    + rewrite app_nil_r. destruct (scan_quiet _ r (R_soft _ _ HR) (map_connerr_quiet (c_subs x) cz)) as [r1 [E1 E2]].
+      exists r1. split; auto.
+      assert (Rel (set_cn s c (shut_conn x cz)) r).
+      { eapply rel_dead_change; eauto; simpl; try rewrite Ed; congruence. }
+      destruct E2; subst; auto. apply rel_clr; auto.
+    + rewrite scan_closed; [|exact (R_soft _ _ HR)|apply map_connerr_quiet].
+      eexists; split; [reflexivity|]. eapply rel_kill; eauto; simpl; rewrite ?Ed; congruence.
+Qed.
+
+Definition canc_reg (r : rs) (i : nat) : rs :=
+  {| r_reg := r_reg r; r_used := r_used r; r_canc := i :: r_canc r; r_exp := None |}.
+
+Lemma rel_canc_more : forall s r i, Rel s r -> Rel s (canc_reg r i).
+Proof.
+  intros s r i HR. drel HR. constructor; simpl; auto.
+  - unfold soft; simpl; auto.
+  - intros cc ww ii Hin. destruct (Hr1 _ _ _ Hin) as (y & Hy & Hdd & Hsn & Hor).
+    exists y. repeat split; auto. destruct Hor; auto.
+Qed.
+
+Lemma rel_set_rl : forall s r c x rl', Rel s r -> cns s c = Some x -> (forall w, c_rl x <> RLRemove w) ->
+  (forall w, rl' <> RLRemove w) -> Rel (set_cn s c (c_set_rl x rl')) r.
+Proof.
+  intros s r c x rl' HR Hc Ho Hn. drel HR. constructor; simp; auto.
+  - intros cc ww ii Hin. destruct (Hr1 _ _ _ Hin) as (y & Hy & Hdd & Hsn & Hor). unfold upd.
+    destruct (Nat.eqb_spec cc c); subst.
+    + rewrite Hc in Hy; inversion Hy; subst. eexists; split; [reflexivity|]. simpl. auto.
+    + eexists; repeat split; eauto.
+  - intros cc y ww ii Hy. unfold upd in Hy. destruct (Nat.eqb_spec cc c); subst; [|eauto].
+    inversion Hy; subst. simpl. intros. eapply Hr4; eauto.
+  - intros cc y ww ii Hy. unfold upd in Hy. destruct (Nat.eqb_spec cc c); subst; [|eauto].
+    inversion Hy; subst. simpl. intros E. exfalso. eapply Hn; eauto.
+  - intros j cc ww y Hp Hy. unfold upd in Hy. destruct (Nat.eqb_spec cc c); subst; [|eauto].
+    inversion Hy; subst. simpl. eauto.
+  - intros cc y ww Hy. unfold upd in Hy. destruct (Nat.eqb_spec cc c); subst; [|eauto].
+    inversion Hy; subst. simpl. intros E. exfalso. eapply Hn; eauto.
+Qed.
+
+Definition sub_reg (r : rs) (c w i : nat) : rs :=
+  {| r_reg := (c, w, i) :: r_reg r; r_used := w :: r_used r; r_canc := r_canc r; r_exp := None |}.
+
+(* the subscribe frame of i reaches the upstream *)
+Lemma rel_sent : forall s r i c w x, Inv s -> Rel s r -> pc s i = SSend c w -> cns s c = Some x -> c_dead x = None ->
+  mem_nat w (r_used r) = false /\
+  Rel {| pc := upd (pc s) i (SActive c w); ctxc := ctxc s; okey := okey s; conns := conns s; dialing := dialing s;
+         dials := dials s; cns := cns s; next_c := next_c s; next_w := next_w s; idle := idle s;
+         seen := (w, i) :: seen s; sse := sse s |} (sub_reg r c w i).
+Proof.
+  intros s r i c w x HI HR Hp Hc Hd. drel HR.
+  assert (Hns : ~ In w (map fst (seen s))) by (apply (I5b _ HI i); rewrite Hp; reflexivity).
+  split.
+  - destruct (mem_nat w (r_used r)) eqn:E; auto. apply mem_nat_In in E. apply Hr3 in E. tauto.
+  - constructor; simpl; auto.
+    + unfold soft; simpl; auto.
+    + intros cc ww ii [E|Hin].
+      * inversion E; subst. exists x. repeat split; auto. right. eapply Hr6; eauto.
+      * destruct (Hr1 _ _ _ Hin) as (y & Hy & Hdd & Hsn & Hor). exists y. repeat split; auto.
+    + intros ww. simpl. rewrite (Hr3 ww). tauto.
+    + intros cc y ww ii Hy Hin [E|Hsn] Hdd Hr.
+      * subst ww. left.
+        assert (Hh : holdsP (pc s ii) cc w) by (eapply (I1 _ HI); eauto).
+        assert (ii = i) by (eapply (I10 _ HI); [eapply holds_held; eauto | rewrite Hp; reflexivity]). subst.
+        rewrite Hp in Hh. simpl in Hh. destruct Hh; subst. reflexivity.
+      * right. eauto.
+    + intros j cc ww y Hj Hy Hdd. unfold upd in Hj. destruct (Nat.eqb_spec j i); [discriminate|]. eauto.
+    + intros cc y ww Hy Hr. right. eauto.
+Qed.
